@@ -431,6 +431,9 @@ func (cu *ContractUpdater) Commit(revision SignedRevision, usage Usage) error {
 
 	// clear the committed sector actions
 	cu.sectorActions = cu.sectorActions[:0]
+	// the committed roots are the base the store replays any further actions
+	// of this updater against
+	cu.oldRoots = append(cu.oldRoots[:0], cu.sectorRoots...)
 	// update the roots cache
 	cu.manager.setSectorRoots(cu.contractID, cu.sectorRoots)
 	cu.log.Debug("contract update committed", zap.String("contractID", revision.Revision.ParentID.String()), zap.Uint64("revision", revision.Revision.RevisionNumber), zap.Duration("elapsed", time.Since(start)))
